@@ -18,7 +18,7 @@ LEVEL_TEXT = ("Lean theorems over the small-step system controller x abstract ex
               "had been completely WRITTEN into this host's shm before (c02_exec_inputs_arrived), is readable while the controller traffic keeps the C04 "
               "discipline (c02_exec_inputs_readable, _full_fails), every announcement anywhere names a dataset written before (c02_exec_announced_after_write), "
               "a worker only runs sequences addressed to it (c02_exec_named_worker), GPU worker i sees exactly device i (c02_gpu_own_device/_exclusive/_registered). ")
-LEVEL_NOTE = ("modelled, not verified: scheduler/api.py initialize/plan, scheduler/assign.py build_assignment + the pops of _assignment_heuristic, controller/act.py act/flush_queues, controller/notify.py notify/consider_*, impl.run loop skeleton (Model/Ctrl.lean, one Lean function per Python function). Abstracted as an oracle argument validated for admissibility by the model and supplied from what the real run chose: which (idle worker, computable task) pairs the distance/overhead heuristics and host->component migration pick per round, and which `available` host is the transmit source; theorems quantify over all admissible choices. Executors are abstract (Env + the non-atomic layer Model/CtrlN.lean; SimBridge mirrors both): a dispatched task starts once its inputs are in its host's store and publishes its outputs in index order, one step per output, interleaved with everything else; transmit/fetch read the source store; purge is immediate. Hypothesis WF: tasks topologically numbered, inputs duplicate-free, >=1 output per task, requested outputs exist, worker ids distinct (the generator guarantees it). Worker model: availab_ds/missing_ds/waiting_ts bookkeeping of entrypoint(), driven in-process with fake zmq/Memory; `required` is computed by the harness as the code does. Since the audit response: the (task, worker) pair is no longer only validated - theorems over the extended system (Model/Sched.lean) show that the modelled control flow of assign() yields admissible pairs only; SimBridge counts a started body as busy and starts one body per worker at a time; commands are compared with their publish sets. Not in any C02 model: the executor layer between Bridge and worker (fan-out of DatasetPublished/DatasetPurge, purge filter, CUDA_VISIBLE_DEVICES) and 'announcement implies bytes are in shm' (clause: never starts before the data ACTUALLY arrived) - sampled by C01's real-cluster runs, owned by the executor/worker layer.")
+LEVEL_NOTE = ("modelled, not verified: scheduler/api.py initialize/plan, scheduler/assign.py build_assignment + the pops of _assignment_heuristic, controller/act.py act/flush_queues, controller/notify.py notify/consider_*, impl.run loop skeleton (Model/Ctrl.lean, one Lean function per Python function). Abstracted as an oracle argument validated for admissibility by the model and supplied from what the real run chose: which (idle worker, computable task) pairs the distance/overhead heuristics and host->component migration pick per round, and which `available` host is the transmit source; theorems quantify over all admissible choices. Executors are abstract (Env + the non-atomic layer Model/CtrlN.lean; SimBridge mirrors both): a dispatched task starts once its inputs are in its host's store and publishes its outputs in index order, one step per output, interleaved with everything else; transmit/fetch read the source store; purge is immediate. Hypothesis WF: tasks topologically numbered, inputs duplicate-free, >=1 output per task, requested outputs exist, worker ids distinct (the generator guarantees it). Worker model: availab_ds/missing_ds/waiting_ts bookkeeping of entrypoint(), driven in-process with fake zmq/Memory; `required` is computed by the harness as the code does. Since the audit response: the (task, worker) pair is no longer only validated - theorems over the extended system (Model/Sched.lean) show that the modelled control flow of assign() yields admissible pairs only; SimBridge counts a started body as busy and starts one body per worker at a time; commands are compared with their publish sets. Executor layer (Model/ExecLayer.lean, Props/C02Exec.lean, tie harness/ekw/c02_exec.py: the real Executor, worker entrypoint and data-server handlers of one host driven in-process over fake sockets under generated schedules): fan-out of DatasetPublished/DatasetPurge, purge filter, CUDA_VISIBLE_DEVICES and 'announcement implies bytes are in shm' are modelled there; a handler of the executor and what a worker does between two pause points are atomic in that model (assumption), c02_exec_inputs_readable is conditional on the controller discipline C04 proves (not composed in Lean), reads inside execute_sequence and soundness of the purge filter are judged by the oracle only.")
 TECHNIQUE = "Lean 4 inductive system invariant over a small-step transition system (controller micro-steps x adversarial executors) + worker wait-loop invariant; step-by-step state correspondence with the real controller (SimBridge) and the real worker entrypoint"
 LEAN_PROPS = ["EkwVerif.Props.C02"]
 LEAN_DRIVERS = ["Ctrl"]
